@@ -15,6 +15,7 @@ from gen import hostile as HG
 from gen import catalog as CAT
 from gen import cfmt as GC
 from gen import pyfmt as GP
+from gen import pybrace as GB
 
 LINE_RE = re.compile(r'\A[EWIP]: [^\n]*\Z')
 def _bad_class():
@@ -328,6 +329,12 @@ def model_streams(chk, rng):
             ps = GP.boundary_strings() + GP.context_strings() + [GP.gen_string(rng) if rng.random() < 0.7 else GP.mutate(rng, GP.gen_string(rng)) for _ in range(n)] + HG.PYFMT
             ps = [x for x in ps if x and len(x) < 3000]
             chk.stream('pipeline-pystring', ['pipeline pystring ' + hexs(x) for x in ps], [P.impl_string('python', x) for x in ps])
+            bs = GB.boundary_strings() + GB.fixed_singles() + [GB.gen_string(rng) if rng.random() < 0.6 else GB.mutate(rng, GB.gen_string(rng)) for _ in range(n)] + [GB.gen_clash(rng) for _ in range(n // 10)] + HG.BRACE
+            bs = [x for x in bs if x and len(x) < 3000]
+            chk.stream('pipeline-pybstring', ['pipeline pybstring ' + hexs(x) for x in bs], [P.impl_string('python-brace', x) for x in bs])
+            qs = [GB.gen_perl(rng) for _ in range(n // 2)] + [GB.mutate(rng, GB.gen_perl(rng)) for _ in range(n // 4)] + HG.PERL
+            qs = [x for x in qs if x and len(x) < 3000]
+            chk.stream('pipeline-perlstring', ['pipeline perlstring ' + hexs(x) for x in qs], [P.impl_string('perl-brace', x) for x in qs])
     except common.Infra:
         raise
     except Exception as exc:
@@ -699,18 +706,22 @@ def main():
                  'tools/translate/excmap2lean.py: ast walk over lib/, exception class expressions evaluated on the live modules; dispatch = first clause one of whose classes is in the MRO '
                  '(compared with issubclass on every try site x class pair: stream pipeline-dispatch)',
                  'the models of Checker.check, cli.main/check_all/check_file/check_deb and check_string are compared with the REAL functions under scripted collaborators '
-                 '(streams pipeline-check, -main, -file, -cstring, -pystring), not proved equal to them',
-                 'component theorems used (C02, C04-C07, C09, C11, C12, C18, C19) are tied to the source by their own checks, not re-tied here',
-                 'pipeline_nocrash takes the closure of the components still under construction as the named fields of `Pending` (C10 PO loader, C15 header stages, C16 message stage incl. C13/C14)',
+                 '(streams pipeline-check, -main, -file, -cstring, -pystring, -pybstring, -perlstring), not proved equal to them',
+                 'component theorems used (C02, C04-C07, C09-C20) are tied to the source by their own checks, not re-tied here',
+                 'pipeline_nocrash_unconditional has no hypothesis about any loader or stage; it assumes, by name, facts about the world outside the checked file: WorldOk (plural registry = the shipped one, '
+                 'kernel-checked clean by C07; C20\'s charset fragment total; expat raises only ExpatError; the format checkers get the message\'s own strings), Po.CodecsBehave (a codec the tool classified as '
+                 'ASCII-compatible raises only UnicodeError; ISO-8859-1 decodes every byte string) and C09.Latin1OK; worldOk_live derives WorldOk for the generated tables from two third-party contracts',
                  'time, recursion depth, the regex engine, polib/rply/expat/iconv/email internals, the OS, -j process handling and terminal encodings are outside every model: decided by the search (test level)'],
         explanation='PARTIAL. PROOF (Props/C01.lean): exception closure of the modelled pipeline with the exception-to-tag mapping regenerated from the source on every run: pins strformat_errors_caught '
                     '(every own-Error subclass and every raised class of each strformat module is reported as that format\'s *-format-string-error and swallowed for msgids), warnings_caught, plural_errors_caught, '
                     'arithmetic_errors_caught, date_errors_caught, xml_errors_caught, charset_errors_caught, language_errors_caught, deb_errors_caught, check_sites_pin, loader_classification; '
-                    'checkString_nocrash, cCheckString_nocrash/_error_tag, pyCheckString_nocrash/_error_tag (C11, C12), braceCheckString_nocrash (hypothesis C13); check_uncaught_iff, check_total, '
+                    'checkString_nocrash, cCheckString_nocrash/_error_tag, pyCheckString_nocrash/_error_tag (C11, C12), pybraceCheckString_nocrash/_error_tag, perlbraceCheckString_nocrash (C13 brace_error_own, perl_error_own); check_uncaught_iff, check_total, '
                     'loader_failure_lines, unreadable_is_tag, unknown_type_is_tag, broken_encoding_iff, mo_check_total, mo_load_agrees (C09), plurals_stage_total (C04-C07), dates_stage_total (C18), '
-                    'language_stage_total (C19); main_rc_zero_iff, main_ok, main_invalid_language, runSeq/runPar_fails_iff, checkFile_ok; pipeline_nocrash (status 0, empty stderr, only tag lines for every '
-                    'argument list, accepted -l and -j; MO loader, check_language, check_plurals, check_dates discharged; C10/C15/C16 as the named hypotheses `Pending`), pipeline_crash_visible, '
-                    'line_is_tag_line (C02), recursion_budget. OUTSTANDING: the Pending fields; any theorem about time; recursion depth (REFUTED on the real code: open finding '
+                    'language_stage_total (C19); main_rc_zero_iff, main_ok, main_invalid_language, runSeq/runPar_fails_iff, checkFile_ok; pipeline_nocrash (the composition law over abstract stages, hypotheses `Pending`), '
+                    'pipeline_nocrash_unconditional (every Pending field discharged: loaders = C09 Mo.parse and C10 Po.load (Lemmas/PoNoCrash: closed outcome set), stages = C17\'s Meta.Real.pipeline with the models of '
+                    'C15, C19, C04-C07, C20, C18, C16, C14 over the parsers of C11/C12/C13 (Lemmas/PipelineBrace, PipelineReal): status 0, empty stderr, only tag lines for every list of arguments incl. ARBITRARY '
+                    'byte strings as MO/PO/POT, every accepted -l, every -j), real_mo_nocrash, real_po_nocrash, worldOk_live, pipeline_crash_visible, '
+                    'line_is_tag_line (C02), recursion_budget. OUTSTANDING: nothing about a stage; the world contracts named under trusted_base; any theorem about time; recursion depth (REFUTED on the real code: open finding '
                     'crash:RecursionError:lib/intexpr.py, plural expressions nested deeper than ~490, replayed from corpus/C01 on every run). '
                     'TEST (this run): %d in-process files, %d command-line runs, %d size-doubling families, %d regexes screened (%d repeats pumped), %d slot-sweep files. '
                     'FIXED by this check\'s findings in /repo: 4ff67ee, d16b49e, 875595a (+ recorded 2f85d76, 9de4551).'
